@@ -499,36 +499,52 @@ def register(S):
             return ("incl", v.get("cur"), v.get("end"), v.get("done"))
         return None
 
-    @S.pat(r"^core::iter::range::<impl core::iter::traits::iterator::Iterator for core::ops::range::Range(Inclusive)?<\w+>>::next$")
-    def range_next(ctx):
-        ref = ctx.args[0]
-        v = ctx.deref(ref)
-        r = _range_of(ctx, v)
+    def range_pull(ip, st, v):
+        """advance a Range / RangeInclusive value: [(state, new range value, element | END)]"""
+        from .sum_iter import END
+        r = _range_of(None, v)
         if r is None:
-            return ctx.ret(ctx.top_ret())
+            raise Inconclusive("range iteration over %r" % (v,))
         kind, cur, end, done = r
         if not (isinstance(cur, IntVal) and isinstance(end, IntVal) and cur.is_const() and end.is_const()):
-            # symbolic bounds: abstract iteration (element in [cur.lo, end.hi))
+            # symbolic bounds: abstract iteration (one arbitrary element in [cur.lo, end.hi), then exhaustion is also possible)
             if isinstance(cur, IntVal) and isinstance(end, IntVal):
                 hi = end.hi - (1 if kind == "excl" else 0)
-                s_some, s_none = ctx.st.copy(), ctx.st.copy()
+                s_none = st.copy()
                 elem = IntVal(cur.ty, cur.lo, max(cur.lo, hi), None, None, None, cur.deps | end.deps)
-                return ctx.ret_states([(s_some, some(elem)), (s_none, NONE)])
-            return ctx.ret(ctx.top_ret())
+                return [(st, v, elem), (s_none, v, END)]
+            raise Inconclusive("range iteration over %r" % (v,))
         c, e = cur.cval(), end.cval()
         if kind == "excl":
             if c < e:
-                nv = AdtVal(v.path, v.variant, [IntVal.const(cur.ty, c + 1), end], v.kind, v.vname)
-                ctx.ip.write_loc(ctx.st, ref.loc, nv)
-                return ctx.ret(some(cur))
-            return ctx.ret(NONE)
+                return [(st, AdtVal(v.path, v.variant, [IntVal.const(cur.ty, c + 1), end], v.kind, v.vname), cur)]
+            return [(st, v, END)]
         if done or c > e:
-            return ctx.ret(NONE)
+            return [(st, v, END)]
         if c == e:
-            ctx.ip.write_loc(ctx.st, ref.loc, v.set(done=True))
-        else:
-            ctx.ip.write_loc(ctx.st, ref.loc, v.set(cur=IntVal.const(cur.ty, c + 1)))
-        return ctx.ret(some(cur))
+            return [(st, v.set(done=True), cur)]
+        return [(st, v.set(cur=IntVal.const(cur.ty, c + 1)), cur)]
+
+    S.range_pull = range_pull
+
+    @S.pat(r"^core::iter::range::<impl core::iter::traits::iterator::Iterator for core::ops::range::Range(Inclusive)?<\w+>>::next$")
+    def range_next(ctx):
+        from .sum_iter import END
+        ref = ctx.args[0]
+        v = ctx.deref(ref)
+        if _range_of(ctx, v) is None:
+            return ctx.ret(ctx.top_ret())
+        try:
+            res = range_pull(ctx.ip, ctx.st, v)
+        except Inconclusive:
+            return ctx.ret(ctx.top_ret())
+        outs = []
+        for s, v2, e in res:
+            if v2 is not v:
+                ctx.ip.write_loc(s, ref.loc, v2)
+            ctx.ip.finish_call(s, ctx.dest, ctx.target, NONE if e is END else some(e))
+            outs.append(s)
+        return outs if len(outs) != 1 or outs[0] is not ctx.st else None
 
     # ---------------------------------------------------------------- slices / arrays / vec / string
     def seq_of(ctx, a):
@@ -803,6 +819,92 @@ def register(S):
     @S.pat(r"^core::array::<impl core::ops::index::Index(Mut)?<I> for \[T; N\]>::index(_mut)?$")
     def array_index(ctx):
         return slice_index(ctx)
+
+    @S.on("core::slice::<impl [T]>::split_at", "core::slice::<impl [T]>::split_at_mut")
+    def slice_split_at(ctx):
+        sl, mid = ctx.args
+        key = ctx.ip.site_key(ctx.fr.fn, ctx.call.get("span"), "call:may-panic:" + ctx.path.rsplit("::", 1)[1])
+        if not isinstance(sl, RefVal) or not isinstance(mid, IntVal):
+            ctx.ip.obligation(ctx.st, ctx.fr, key, False, {"kind": "split_at", "mid": repr(mid)})
+            return ctx.ret(ctx.top_ret())
+        n = sl.meta if sl.meta is not None else ctx.ip.len_of(ctx.st, seq_of(ctx, sl))
+        okk = isinstance(n, IntVal) and mid.hi <= n.lo
+        ctx.ip.obligation(ctx.st, ctx.fr, key, okk, {"kind": "split_at", "mid": repr(mid), "len": repr(n)})
+        if mid.is_const() and isinstance(n, IntVal) and n.is_const():
+            m, k = mid.cval(), n.cval()
+            a = RefVal(sl.loc[:-1] + (sl.loc[-1] + (("win", 0, m),),), sl.mut, meta=IntVal.const(USIZE, m))
+            b = RefVal(sl.loc[:-1] + (sl.loc[-1] + (("win", m, k),),), sl.mut, meta=IntVal.const(USIZE, max(0, k - m)))
+            return ctx.ret(TupleVal([a, b]))
+        return ctx.ret(ctx.top_ret())
+
+    @S.on("alloc::string::String::push")
+    def string_push(ctx):
+        ref, x = ctx.args
+        v = ctx.deref(ref)
+        if isinstance(v, Opaque) and v.kind == "string":
+            if v.get("elems") is not None:
+                es = v.get("elems") + (x,)
+                nv = v.set(elems=es, n=len(es))
+            else:
+                nv = v.set(summary=join_val(v.get("summary"), x), n=_inc(v.get("n")))
+            ctx.ip.write_loc(ctx.st, ref.loc, nv)
+            return ctx.ret(UNIT)
+        if isinstance(ref, RefVal):
+            ctx.ip.write_loc(ctx.st, ref.loc, Opaque.make("string", elems=None, n=IntVal(USIZE, 1, (1 << 63) - 1), summary=join_val(None, x)))
+        return ctx.ret(UNIT)
+
+    @S.pat(r"^core::char::convert::<impl core::convert::From<u8> for char>::from$|^core::char::convert::<impl core::convert::From<char> for u(32|64|128)>::from$")
+    def char_from(ctx):
+        tyj = ctx.ret_ty() or {"k": "char"}
+        return ctx.ret(ctx.ip.cast(ctx.st, "IntToInt", ctx.args[0], tyj))
+
+    @S.on("core::option::Option::<T>::ok_or")
+    def option_ok_or(ctx):
+        r = split_enum_top(ctx, 0, OPTION, OPT_VARS)
+        if r is not None:
+            return r
+        a = ctx.args[0]
+        return ctx.ret(ok(a.fields[0]) if a.variant == 1 else err(ctx.args[1]))
+
+    @S.on("core::option::Option::<T>::take")
+    def option_take(ctx):
+        ref = ctx.args[0]
+        if not isinstance(ref, RefVal):
+            return NotImplemented
+        v = ctx.ip.read_loc(ctx.st, ref.loc)
+        ctx.ip.write_loc(ctx.st, ref.loc, NONE)
+        return ctx.ret(v)
+
+    @S.on("core::option::Option::<T>::unwrap_or_default", "core::result::Result::<T, E>::unwrap_or_default")
+    def unwrap_or_default(ctx):
+        isopt = "option" in ctx.path
+        r = split_enum_top(ctx, 0, OPTION if isopt else RESULT, OPT_VARS if isopt else RES_VARS)
+        if r is not None:
+            return r
+        a = ctx.args[0]
+        good = 1 if isopt else 0
+        if a.variant == good:
+            return ctx.ret(a.fields[0])
+        rty = ctx.ret_ty()
+        t = ty_of_json(rty) if rty else None
+        if t is not None:
+            return ctx.ret(IntVal.const(t, 0))
+        return NotImplemented
+
+    @S.on("core::option::Option::<T>::unwrap_or_else", "core::result::Result::<T, E>::unwrap_or_else")
+    def unwrap_or_else(ctx):
+        isopt = "option" in ctx.path
+        r = split_enum_top(ctx, 0, OPTION if isopt else RESULT, OPT_VARS if isopt else RES_VARS)
+        if r is not None:
+            return r
+        a = ctx.args[0]
+        good = 1 if isopt else 0
+        if a.variant == good:
+            return ctx.ret(a.fields[0])
+        dest, target = ctx.dest, ctx.target
+        if ctx.call_closure(ctx.args[1], [] if isopt else [a.fields[0]], lambda ip, st, rv: ip.finish_call(st, dest, target, rv)):
+            return None
+        return NotImplemented
 
     @S.on("alloc::vec::Vec::<T, A>::last", "core::slice::<impl [T]>::last")
     def vec_last(ctx):
